@@ -267,6 +267,10 @@ def _odp_shape(k, s, c):
             + ("".join(f"<text:p>{_inl(p, c)}</text:p>" for p in cell) or "<text:p/>")
             + "</table:table-cell>" for j, cell in enumerate(row)) + "</table:table-row>" for row in s[1])
         ncols = max(len(r) for r in s[1])
+        # the first row of a table at an even position is a repeated header row (table:table-header-rows wrapper)
+        if k % 2 == 0 and "</table:table-row>" in rows:
+            first, rest_ = rows.split("</table:table-row>", 1)
+            rows = f"<table:table-header-rows>{first}</table:table-row></table:table-header-rows>{rest_}"
         return _odp_group(k, f'<draw:frame {y}><table:table><table:table-column table:number-columns-repeated="{ncols}"/>'
                              f"{rows}</table:table></draw:frame>")
     cls = {"title": ' presentation:class="title"', "body": ' presentation:class="outline"', "text": ""}[kind]
